@@ -298,6 +298,9 @@ def run(ctx):
                         ok = ok and any(mentions(nx[0], lambda s, l=l: s[0] in ("mutated", "havoc", "loc") and s[1] == l) for l in rec)
             ctx.check(ok, "D2-PRODUCER", PFB, "push@entries", "entries.push(PlistEntry::from_bytes(&bytes[s..e])?) for each recorded (s,e)",
                       "an entry is pushed that is not PlistEntry::from_bytes(&bytes[s..e])? of a recorded line", body.span_of(bb))
+        only_appended(ctx, "D2-PRODUCER", PFB, "plist.entries", lambda t: mentions(t, lambda s: s[0] == "field" and s[3] == "entries"))
+        recl = {g[3].args[0][1][1] for g in guards.values() if isinstance(g[3].args[0], tuple) and g[3].args[0][0] == "refmut"}
+        only_appended(ctx, "D2-PRODUCER", PFB, "recorded-lines", lambda t: isinstance(t, tuple) and t[0] == "loc" and t[1] in recl, floor=2)
         errprop(ctx, PFB, paths, body, rule="D2-ERRPROP", no_effects_after_error=("Vec::push",), floor=1)
 
     # ---- D4
